@@ -326,12 +326,15 @@ class ProgressBar(object):
 
         if self._should_overwrite:
             if isinstance(self._io, SectionOutput):
-                lines_to_clear = (
-                    int(math.floor(len(lines) / self._terminal.width))
-                    + self._format_line_count
-                    + 1
-                )
-                self._io.clear(lines_to_clear)
+                if self._write_count > 0:
+                    # Only a frame written earlier is replaced: what the
+                    # section held before the bar started stays
+                    lines_to_clear = (
+                        int(math.floor(len(lines) / self._terminal.width))
+                        + self._format_line_count
+                        + 1
+                    )
+                    self._io.clear(lines_to_clear)
             else:
                 # move back to the beginning of the progress bar before redrawing it
                 self._io.write("\x0D")
